@@ -145,6 +145,7 @@ class Decl:
     trailing_commas: bool = False
     const_inputs: List[Any] = field(default_factory=list)   # (literal text, denoted raw value)
     doc: Optional[str] = None
+    unspecified: bool = False               # the documentation does not settle whether this declaration must compile
 
     @property
     def has_validation(self):
